@@ -10,7 +10,7 @@ def _message_is_escaped(ex, st, post, result):
     """the text put into the error document is html.escape(request_error.msg), unmodified"""
     import z3
     from pyvc.values import eq
-    esc = T.evs(st, 'escape')
+    esc = T.evs(st, 'xml_text')
     sub = T.evs(st, 'substitute')
     req = post.env['request_error']
     ok = len(esc) == 1 and len(sub) == 1
@@ -20,8 +20,9 @@ def _message_is_escaped(ex, st, post, result):
                       eq(esc[0][1].args[0], ex.opaque_field_at(st, esc[0][1], req, 'msg')),
                       z3.BoolVal(len(esc[0][1].args) == 1 and not esc[0][1].kwargs))
     yield ('exception_text_is_escaped_message', goal,
-           "template variable `exception` is exactly html.escape(request_error.msg) (quotes included): request-derived text only "
-           "appears as escaped character data, never cut inside an entity or re-assembled")
+           "template variable `exception` is exactly xml_text(request_error.msg) - html.escape (quotes included) of the message without "
+           "the characters XML 1.0 does not allow: request-derived text only appears as escaped character data, never cut inside an "
+           "entity or re-assembled")
     resp = T.evs(st, 'Response')
     yield ('document_is_the_rendered_template', z3.BoolVal(len(resp) == 1 and bool(sub) and resp[0][1].args[0] is sub[0][1].result),
            'the response body is the rendered template')
@@ -32,9 +33,9 @@ for k in ('XMLExceptionHandler', 'OWSExceptionHandler'):
                             template_file='opaque', template_func='opaque'))
     contract(E_ + k + '.render', props=['C18'], types=dict(request_error='opaque'), returns='opaque', default_callee='opaque',
              opaque_fields={'msg': 'str', 'status': 'opt[int]'}, stable_fields=['msg', 'status', 'code', 'locator'],
-             opaque_spec={'escape': {'returns': 'str', 'pure': True}, 'substitute': {'pure': True}, 'get': {'pure': True},
+             opaque_spec={'xml_text': {'returns': 'str', 'pure': True}, 'substitute': {'pure': True}, 'get': {'pure': True},
                           'template': {'pure': True}, 'Response': {'pure': True}},
-             opaque=['template', 'Response'],
+             opaque=['template', 'Response', 'xml_text'],
              trace=[_message_is_escaped])
 
 
@@ -444,3 +445,23 @@ contract('mapproxy.request.wms.exception:WMSImageExceptionHandler.render', props
                       'filter_format': {'returns': 'str', 'pure': True}},
          opaque=['_bgcolor', 'Response', 'filter_format'],
          trace=[_inimage_answer])
+
+
+
+# ---- xml_text: character-level postcondition, BOUNDED (regular expression + replace chain) -------------------------------------------
+def _gen_xml_text(gen, rng):
+    alphabet = ['<', '>', '&', '"', "'", 'a', ' ', '\x00', '\x01', '\x08', '\x0b', '\x0c', '\x0e', '\x1f', '\t', '\n', '\r', '\x7f', '\ufffe', '\uffff',
+                '\u00e9', '&amp;', ']]>', 'unknown layer: ']
+    return {'msg': ''.join(rng.choice(alphabet) for _ in range(rng.randint(0, 14)))}
+
+
+def _xml_text_is_wellformed_chardata(args, result):
+    """xml_text(msg): no character that XML 1.0 forbids, no raw markup character; it is html.escape of msg without the forbidden ones"""
+    import html
+    ok_char = lambda c: c in '\t\n\r' or (0x20 <= ord(c) <= 0xd7ff) or (0xe000 <= ord(c) <= 0xfffd) or ord(c) >= 0x10000     # noqa
+    kept = ''.join(c for c in args['msg'] if ok_char(c))
+    return all(ok_char(c) for c in result) and result == html.escape(kept) and '<' not in result and '>' not in result
+
+
+contract('mapproxy.exception:xml_text', props=['C18'], verify=False, types=dict(msg='str'), returns='str',
+         ensures=[_xml_text_is_wellformed_chardata], fuzz_gen=_gen_xml_text, bounded=dict(n=5000, seconds=8))
